@@ -203,6 +203,7 @@ pub fn run(ctx: &Ctx) {
             let formula_applies = is_fp_kind && fixed_point.is_some() && int_value_f64(&value).is_some();
             loc.evals += 1;
             loc.transitions += 1;
+            loc.traces += 1;
             loc.state(idx, formula_applies);
             let describe = || format!("kind={:?} value={:?} fixed_point={:?}", kind, value, fixed_point.as_ref().map(|f| (f.quantization, f.quantization.to_bits(), f.offset.clone())));
             match catch(|| arg.to_real_value()) {
